@@ -13,6 +13,7 @@ import os
 from typing import List
 
 _REPO = os.environ.get("VERIF_REPO", "/repo")
+MAXLEN = int(os.environ.get("C19_MAXLEN", "3"))  # bound on the symbolic history length (3 quick, 4 thorough)
 _spec = importlib.util.spec_from_file_location("sc_mod", os.path.join(_REPO, "src/ginjax/ml/stopping_conditions.py"))
 sc_mod = importlib.util.module_from_spec(_spec)
 _spec.loader.exec_module(sc_mod)
@@ -114,7 +115,7 @@ def _drive(sc, losses, wrap, which):
 def check_trainloss_float(losses: List[float], patience: int, min_delta: float) -> bool:
     """
     pre: 0 <= patience <= 3 and 0 <= min_delta <= 8
-    pre: 1 <= len(losses) <= 4
+    pre: 1 <= len(losses) <= MAXLEN
     pre: all(0 <= l <= 100 for l in losses)
     post: _
     """
@@ -126,7 +127,7 @@ def check_trainloss_float(losses: List[float], patience: int, min_delta: float) 
 def check_trainloss_nonfloat(losses: List[float], patience: int, min_delta: float) -> bool:
     """
     pre: 0 <= patience <= 3 and 0 <= min_delta <= 8
-    pre: 1 <= len(losses) <= 4
+    pre: 1 <= len(losses) <= MAXLEN
     pre: all(0 <= l <= 100 for l in losses)
     post: _
     """
@@ -138,7 +139,7 @@ def check_trainloss_nonfloat(losses: List[float], patience: int, min_delta: floa
 def check_valloss_float(losses: List[float], patience: int, min_delta: float) -> bool:
     """
     pre: 0 <= patience <= 3 and 0 <= min_delta <= 8
-    pre: 1 <= len(losses) <= 4
+    pre: 1 <= len(losses) <= MAXLEN
     pre: all(0 <= l <= 100 for l in losses)
     post: _
     """
@@ -150,7 +151,7 @@ def check_valloss_float(losses: List[float], patience: int, min_delta: float) ->
 def check_valloss_nonfloat(losses: List[float], patience: int, min_delta: float) -> bool:
     """
     pre: 0 <= patience <= 3 and 0 <= min_delta <= 8
-    pre: 1 <= len(losses) <= 4
+    pre: 1 <= len(losses) <= MAXLEN
     pre: all(0 <= l <= 100 for l in losses)
     post: _
     """
